@@ -322,7 +322,11 @@ func mutate(r *rand.Rand, s string) string {
 }
 
 // genLine builds one structured line; returns the line and a few distribution tags
-func genLine(r *rand.Rand) (string, []string) {
+func genLine(r *rand.Rand) (string, []string) { return genLineMode(r, "") }
+
+// mode "c09": single-sample lines (the four tag syntaxes are the subject); mode "c10": multi-sample and
+// extended-aggregation lines; "": everything
+func genLineMode(r *rand.Rand, mode string) (string, []string) {
 	name := pick(r, lgNames)
 	var tags []string
 	ntags := 0
@@ -359,7 +363,7 @@ func genLine(r *rand.Rand) (string, []string) {
 		}
 	}
 	var body string
-	if r.Intn(5) == 0 { // extended aggregation
+	if (mode == "" && r.Intn(5) == 0) || (mode == "c10" && r.Intn(3) == 0) { // extended aggregation
 		n := 2 + r.Intn(4)
 		var vs []string
 		for i := 0; i < n; i++ {
@@ -380,6 +384,12 @@ func genLine(r *rand.Rand) (string, []string) {
 		n := 1
 		if r.Intn(2) == 0 {
 			n = 1 + r.Intn(6)
+		}
+		if mode == "c09" {
+			n = 1
+		}
+		if mode == "c10" {
+			n = 2 + r.Intn(5)
 		}
 		var ss []string
 		bad := 0
@@ -469,4 +479,56 @@ func init() {
 		}
 	}
 	register(c)
+	for _, mode := range []string{"c09", "c10"} {
+		mode := mode
+		v := &Component{Name: "parse_" + mode, Exec: execParse}
+		if mode == "c09" {
+			v.Rule = "C09 stream: lines with exactly ONE sample (so that only tag handling is exercised): the corpus plus grammar-built lines whose 1-4 tags are written in one of the four syntaxes (SignalFX brackets anywhere in the name), malformed tags (entirely empty, empty key, empty value, no separator) in any position, occasional mixed styles, 1 in 6 lines mutated, under all 16 flag combinations (half of the lines with all four enabled). Non-trivial: the line has tags or a tag-syntax marker; distinct by op text."
+		} else {
+			v.Rule = "C10 stream: lines with 2-6 samples, each well-formed (any type, optional rate) or malformed (bad number from 32 spellings, unknown/set/empty type, empty or surplus fields, bad or duplicate rates) in every position, and extended-aggregation value lists with valid and invalid types, with and without rate and DogStatsD tags; 1 in 6 lines mutated. Non-trivial: >=2 samples of which at least one is malformed, or an extended-aggregation line; distinct by op text."
+		}
+		v.Gen = func(r *rand.Rand, tier string, emit Emit) {
+			allFlags := []string{}
+			for i := 0; i < 16; i++ {
+				allFlags = append(allFlags, fmt.Sprintf("%04b", i))
+			}
+			em := func(flags, l string, nt bool, tags ...string) {
+				if _, huge := pfDict(l); huge {
+					return
+				}
+				emit(parseOp(flags, l), nt, append(tags, "flags_"+flags)...)
+			}
+			for _, l := range parseCorpus {
+				multi := strings.Count(l, ":") >= 2
+				if (mode == "c09") == multi {
+					continue
+				}
+				for _, fl := range allFlags {
+					em(fl, l, true, "corpus")
+				}
+			}
+			n := 60000
+			if tier == "thorough" {
+				n = 1200000
+			}
+			for i := 0; i < n; i++ {
+				l, tags := genLineMode(r, mode)
+				fl := allFlags[r.Intn(16)]
+				if r.Intn(2) == 0 {
+					fl = "1111"
+				}
+				nt := strings.ContainsAny(l, "#,[")
+				if mode == "c10" {
+					nt = false
+					for _, t := range tags {
+						if t == "multi_with_malformed" || t == "extagg" {
+							nt = true
+						}
+					}
+				}
+				em(fl, l, nt, tags...)
+			}
+		}
+		register(v)
+	}
 }
